@@ -450,7 +450,61 @@ func (w *World) showHead(h uint64) string {
 	return bm.ShowSH(e.Pub, sh) + " txs=" + hx.HexList(txs) + " ssig=" + bm.SigClass(e.Pub, &sh.Header, ssig)
 }
 
+// dup: the proposer's chain holds two non-empty blocks with the same transaction list.  Then (since /repo c3c43a6: data is
+// marked seen when its block is APPLIED) whether the later block's data is cached depends on whether the sync loop takes
+// it from its data channel before or after the twin has been applied - the two event channels are served in arbitrary
+// relative order, so height, state and writes at quiescence are schedule dependent (C02's order-independence needs
+// DistinctCommitments).  In such scenarios both sides print schedule-INDEPENDENT facts only; the monitors keep judging.
+func (w *World) dup() bool {
+	if w.prod == nil {
+		return false
+	}
+	seen := map[string]bool{}
+	for k := w.ih; k <= w.prod.Height(); k++ {
+		_, d, err := w.prod.Store.GetBlockData(context.Background(), k)
+		if err != nil || len(d.Txs) == 0 {
+			continue
+		}
+		txs := make([][]byte, len(d.Txs))
+		for i := range d.Txs {
+			txs[i] = d.Txs[i]
+		}
+		key := hx.HexList(txs)
+		if seen[key] {
+			return true
+		}
+		seen[key] = true
+	}
+	return false
+}
+
+// observeDup: alive, DA cursor, "every stored block up to the chain height is the proposer's", "DA-included <= chain height"
+func (w *World) observeDup() string {
+	e := w.full
+	alive := 1
+	if w.dead {
+		alive = 0
+	}
+	ok := "ok"
+	ctx := context.Background()
+	for k := w.ih; k <= e.Height(); k++ {
+		sh, _, err := e.Store.GetBlockData(ctx, k)
+		psh, _, perr := w.prod.Store.GetBlockData(ctx, k)
+		if err != nil || perr != nil || k > w.prod.Height() || !bytes.Equal(sh.Hash(), psh.Hash()) {
+			ok = "bad"
+		}
+	}
+	incok := 0
+	if e.M.GetDAIncludedHeight() <= e.Height() {
+		incok = 1
+	}
+	return fmt.Sprintf("dup alive=%d cursor=%d blocks=%s incok=%d", alive, e.M.VerifDAHeight(), ok, incok)
+}
+
 func (w *World) observe() string {
+	if w.dup() {
+		return w.observeDup()
+	}
 	e := w.full
 	h := e.Height()
 	alive := 1
@@ -1000,6 +1054,10 @@ func Run(c *hx.Ctx) {
 				continue
 			}
 			m := w.full.M
+			if w.dup() {
+				c.Emit("show dup cursor=%d", m.VerifDAHeight())
+				continue
+			}
 			c.Emit("show height=%d cursor=%d hc=%s dc=%s seenH=%s seenD=%s hm=%s dm=%s", w.full.Height(), m.VerifDAHeight(),
 				nums(m.HeaderCache().VerifItemHeights()), nums(m.DataCache().VerifItemHeights()),
 				shortList(m.HeaderCache().VerifSeen()), shortList(m.DataCache().VerifSeen()),
